@@ -65,7 +65,8 @@ class Runtime:
 
             def __str__(self_):
                 if self_._s is None:
-                    raise RuntimeError("str() of this exception raises")
+                    # str() may fail with anything, also with a non-Exception BaseException
+                    raise (GeneratorExit if getattr(self_, "_base", False) else RuntimeError)("str() of this exception raises")
                 return self_._s
 
             attrs = {"__module__": "vmod", "__str__": __str__, "_s": "unset"}
@@ -85,6 +86,7 @@ class Runtime:
         self.ext_fail = {}
         self.dests = {}
         self.offered, self.accepted = [], []
+        self.with_exits = []  # (uuid tag, level) of every action left through `with action:`
         self.reserved = []  # every id returned by serialize_task_id
         self.failures = []  # (dest, call index, exc id, was the message a report?)
         self.api = []  # (call name, "ok" | "raised:<desc>")
@@ -121,6 +123,7 @@ class Runtime:
         obj = self.classes[e["cls"]]("exc%d" % i) if not issubclass(self.classes[e["cls"]], KeyError) else self.classes[e["cls"]]("exc%d" % i)
         try:
             obj._s = e["str"]
+            obj._base = bool(e.get("str_base"))
         except Exception:
             pass
         self.made[id(obj)] = i
@@ -480,10 +483,15 @@ def with_block(rt, action, body):
         raise
     except BaseException as e:  # noqa
         exc = e
-    if exc is None:
-        r = api(rt, "Action.__exit__", action.__exit__, None, None, None)
-    else:
-        r = api(rt, "Action.__exit__", action.__exit__, type(exc), exc, exc.__traceback__)
+    n0 = len(rt.writes)
+    try:
+        if exc is None:
+            r = api(rt, "Action.__exit__", action.__exit__, None, None, None)
+        else:
+            r = api(rt, "Action.__exit__", action.__exit__, type(exc), exc, exc.__traceback__)
+    finally:
+        # which Logger.write calls happened inside this __exit__ (its end message, if it wrote one, and what followed)
+        rt.with_exits.append((ctx_tag(action), n0, len(rt.writes), ctx_tag(before)))
     rt.check("ctx", _action.current_action() is before, "after `with action:` current_action() is not what it was before entry (exit by %s)" % ("exception" if exc is not None else "return"))
     if r:
         rt.api.append(("Action.__exit__", "swallowed"))
